@@ -1,5 +1,6 @@
 """C10 -- decision-diagram algebra agrees with pointwise semantics (unit level at ADD / AValue / ATally)."""
 import itertools
+import numpy as np
 
 import coqfmt as cf
 
@@ -25,7 +26,7 @@ WORKER_TIMEOUT = 3000
 def rand_type(rng):
     if rng.random() < 0.5:
         return {"kind": "plain", "max": [rng.randint(1, 3) for _ in range(rng.randint(1, 2))]}
-    return {"kind": "tally", "n": rng.randint(1, 3), "k": rng.randint(1, 2), "c": rng.randint(1, 2)}
+    return {"kind": "tally", "n": rng.randint(1, 3), "k": rng.choice([1, 2, 2]), "c": rng.choice([1, 2, 2])}
 
 
 def gen(rng, tier):
@@ -117,11 +118,21 @@ def rand_value(r, atype, t, invalid=0.12):
 
 def randomise(r, d, atype, t):
     import copy
+    # half of the diagrams get SMALL edge values (mostly zero, otherwise a domain element whose components sum to at most 2, the
+    # kind of increment the oracle uses): path sums then stay valid and land on many different values, so that value arithmetic
+    # (x + y, x - y, indices of sums and differences) is exercised instead of disappearing in the invalid bucket
+    small = None
+    if r.rand() < 0.6:
+        small = [v for v in atype.domain() if not v.is_inf and 0 < int(np.sum(v.value)) <= 2]
     for i in range(d.nodes.shape[0]):
         for j in range(d.nodes.shape[1]):
             if d.nodes[i, j]:
                 for c in range(2):
-                    d.adder[i, j, c] = copy.deepcopy(rand_value(r, atype, t))
+                    if small:
+                        v = atype(0) if r.rand() < 0.3 else small[int(r.randint(0, len(small)))]
+                        d.adder[i, j, c] = copy.deepcopy(v if r.rand() > 0.04 else atype(None))
+                    else:
+                        d.adder[i, j, c] = copy.deepcopy(rand_value(r, atype, t))
     return d
 
 
